@@ -132,11 +132,20 @@ fn hash_bytes(mut hash: u64, key: &[u8]) -> u64 {
     hash & MASK
 }
 
+/// 0 marks an empty slot, so a key that hashes to 0 gets another fixed handle
+#[inline]
+fn non_zero_handle(hash: u64) -> u32 {
+    if hash as u32 == 0 {
+        0x9E3779B9
+    } else {
+        hash as u32
+    }
+}
+
 impl Handle {
     pub fn from_bytes(key: &[u8]) -> Self {
         let hash = hash_bytes(2166136261, key);
-        debug_assert!(hash != 0);
-        Self(hash as u32)
+        Self(non_zero_handle(hash))
     }
 
     pub fn from_slice<'a, T>(keys: &'a [T]) -> Self
@@ -147,8 +156,7 @@ impl Handle {
         for key in keys {
             hash = hash_bytes(hash, key.into());
         }
-        debug_assert!(hash != 0);
-        Self(hash as u32)
+        Self(non_zero_handle(hash))
     }
 
     pub fn from_bytes_iter<'a>(keys: impl Iterator<Item = &'a [u8]>) -> Self {
@@ -156,8 +164,7 @@ impl Handle {
         for key in keys {
             hash = hash_bytes(hash, key);
         }
-        debug_assert!(hash != 0);
-        Self(hash as u32)
+        Self(non_zero_handle(hash))
     }
 
     pub fn from_u32(key: u32) -> Self {
